@@ -16,8 +16,8 @@ from hypothesis import strategies as st
 
 from . import modelir as MI
 
-EXTRA_NODES = ("Vec", "Label", "Title")
-EXTRA_REFS = ("alt", "lab")
+EXTRA_NODES = ("Vec", "Label", "Title", "Track")
+EXTRA_REFS = ("alt", "lab", "trk")
 
 
 # ----------------------------------------------------------------------------- strategy
@@ -76,6 +76,12 @@ def graph_ir(draw, model, max_nodes=8, sql=False):
         lab_nodes.append(len(nodes) - 1)
         return len(nodes) - 1
 
+    def new_trk():
+        # key is unique per node; the points become temporary Vec objects while the track is converted
+        pts = [[float(draw(st.integers(-2, 2))).hex(), float(draw(st.integers(-2, 2))).hex()] for _ in range(draw(st.integers(0, 4)))]
+        nodes.append({"c": "Track", "v": {"key": len(nodes), "points": pts}})
+        return len(nodes) - 1
+
     for i in range(n):
         for f in MI.all_fields(model, nodes[i]["c"]):
             name, t = f["name"], f["t"]
@@ -99,6 +105,8 @@ def graph_ir(draw, model, max_nodes=8, sql=False):
                         val = new_vec()
                     elif inner["k"] == "lab":
                         val = new_lab()
+                    elif inner["k"] == "trk":
+                        val = new_trk()
                     elif inner["k"] == "custom":
                         val = draw(st.integers(-5, 500))
                     else:
@@ -117,17 +125,25 @@ def graph_ir(draw, model, max_nodes=8, sql=False):
                     val = [new_vec() for _ in range(draw(st.integers(0, 3)))]
                 elif inner["k"] == "lab":
                     val = [new_lab() for _ in range(draw(st.integers(0, 3)))]
+                elif inner["k"] == "trk":
+                    val = [new_trk() for _ in range(draw(st.integers(0, 4)))]
                 else:
                     val = []
             elif k == "alt":
                 val = new_vec()
             elif k == "lab":
                 val = new_lab()
+            elif k == "trk":
+                val = new_trk()
             elif k == "custom":
                 val = draw(st.integers(-5, 500))
             else:
                 val = None
             nodes[i]["v"][name] = val
+    for nd in nodes:
+        if nd["c"] == "Title":
+            cands = instances_of(0)
+            nd["v"]["owner"] = draw(st.sampled_from(cands)) if cands and draw(st.booleans()) else None
     n_roots = draw(st.integers(1, min(3, n)))
     roots = draw(st.lists(st.integers(0, n - 1), min_size=n_roots, max_size=n_roots, unique=True))
     return {"nodes": nodes, "roots": roots}
@@ -157,10 +173,14 @@ def build_graph(model, graph, mod, clss):
         if nd["c"] == "Vec":
             objs.append(mod.Vec(float.fromhex(nd["v"]["x"]), float.fromhex(nd["v"]["y"])))
         elif nd["c"] in ("Label", "Title"):
-            objs.append(getattr(mod, nd["c"])(**nd["v"]))
+            objs.append(getattr(mod, nd["c"])(**{k: v for k, v in nd["v"].items() if k != "owner"}))
+        elif nd["c"] == "Track":
+            objs.append(mod.Track(nd["v"]["key"], [(float.fromhex(x), float.fromhex(y)) for x, y in nd["v"]["points"]]))
         else:
             objs.append(clss[nd["c"]]())
     for obj, nd in zip(objs, graph["nodes"]):
+        if nd["c"] == "Title" and nd["v"].get("owner") is not None:
+            obj.owner = objs[nd["v"]["owner"]]
         if nd["c"] in EXTRA_NODES:
             continue
         for f in MI.all_fields(model, nd["c"]):
@@ -250,6 +270,13 @@ def isomorphic(model, mod, roots_a, roots_b, ordered_collections=True, exact_sca
         if type(a).__name__ in ("Label", "Title"):
             for attr in ("text", "code") + (("size",) if type(a).__name__ == "Title" else ()):
                 same_scalar(getattr(a, attr), getattr(b, attr, "<missing>"), f"{path}.{attr}")
+            if type(a).__name__ == "Title":
+                pair(a.owner, getattr(b, "owner", None), path + ".owner")
+            continue
+        if type(a).__name__ == "Track":
+            same_scalar(a.key, b.key, path + ".key")
+            if [tuple(p) for p in a.points] != [tuple(p) for p in b.points]:
+                raise Mismatch("value_changed", f"{path}.points: {a.points!r} became {b.points!r}")
             continue
         ci = names.index(type(a).__name__)
         for f in MI.all_fields(model, ci):
@@ -305,6 +332,8 @@ def key_of(x):
         return ("Vec", x.x, x.y)
     if type(x).__name__ in ("Label", "Title"):
         return ("Label", x.code)
+    if type(x).__name__ == "Track":
+        return ("Track", x.key)
     return (type(x).__name__, getattr(x, "uid", None))
 
 
@@ -317,6 +346,8 @@ def reachable(model, roots):
         if o is None or id(o) in seen:
             continue
         seen[id(o)] = o
+        if type(o).__name__ == "Title":
+            stack.append(o.owner)
         if type(o).__name__ in EXTRA_NODES:
             continue
         ci = names.index(type(o).__name__)
@@ -336,6 +367,8 @@ def reachable(model, roots):
 def graph_stats(model, graph):
     indeg = [0] * len(graph["nodes"])
     for nd in graph["nodes"]:
+        if nd["c"] == "Title" and nd["v"].get("owner") is not None:
+            indeg[nd["v"]["owner"]] += 1
         if nd["c"] in EXTRA_NODES:
             continue
         for f in MI.all_fields(model, nd["c"]):
